@@ -28,9 +28,9 @@ TIERS = {
 MODES = ["ssa", "ssa", "ssa", "volume", "volume", "delay", "delay", "delay", "delayvolume"]
 
 
-def gen_case(case_seed, cfg, modes=None, delays_in_plain=True, plain_delay_p=0.15, far_p=0.0):
+def gen_case(case_seed, cfg, modes=None, delays_in_plain=True, plain_delay_p=0.15, far_p=0.0, nonuniform_p=0.25):
     for attempt in range(50):
-        case = _gen_case(seeds.derive(case_seed, "attempt", attempt), modes or MODES, delays_in_plain, plain_delay_p, far_p)
+        case = _gen_case(seeds.derive(case_seed, "attempt", attempt), modes or MODES, delays_in_plain, plain_delay_p, far_p, nonuniform_p)
         if netgen.bounded(case["model"]) and event_budget_ok(case):
             return case
     return case
@@ -48,7 +48,7 @@ def event_budget_ok(case, budget=150000):
     return ev[-1][0] >= case["grid"][-1] * (1 - 1e-9) and ev[-1][1] <= budget
 
 
-def _gen_case(case_seed, modes, delays_in_plain=True, plain_delay_p=0.15, far_p=0.0):
+def _gen_case(case_seed, modes, delays_in_plain=True, plain_delay_p=0.15, far_p=0.0, nonuniform_p=0.25):
     r = seeds.rng(case_seed, "gen")
     mode = r.choice(modes)
     stratum = r.choice(["random", "random", "random", "massaction", "absorb"])
@@ -72,7 +72,7 @@ def _gen_case(case_seed, modes, delays_in_plain=True, plain_delay_p=0.15, far_p=
             vol["spec"] = {"kind": "time_threshold", "cycle": netgen.nice(r.uniform(2, 40)),
                            "vdiv": netgen.nice(v0 * r.uniform(1.3, 3.0)), "noise": r.choice([0.0, 0.05, 0.2])}
     # the plain simulator has no clock of its own: there (and only there) non-uniform grids are legal input as well
-    nonuniform = mode == "ssa" and r.random() < 0.25
+    nonuniform = mode == "ssa" and r.random() < nonuniform_p
     grid = netgen.gen_grid(r, model, vol=(vol or {}).get("v0"),
                            target_events=400 if stratum == "absorb" else None, uniform=not nonuniform)
     dt = grid[1] - grid[0]
